@@ -436,7 +436,9 @@ LEAVES = [
 ALPHABET = ["'", '"', '\\', ' ', '\n', 'a', 'b', 'é', '\U0001F600', '\x00', '\x85', '-', '/', '\t', 'Z']
 BALPHABET = [b"'", b'"', b'\\', b' ', b'\n', b'a', b'\x00', b'\xff', b'-']
 COMMENT_TEXTS = ['c', 'a comment with several words', 'two\nlines', 'a\n\nb', '# hash [x] "q" \'s\'', '  lead',
-                 'trail  ', '\n', 'x' * 30 + ' ' + 'y' * 30, 'tab\tsep\x0bvt', ' ', 'café   sep']
+                 'trail  ', '\n', 'x' * 30 + ' ' + 'y' * 30, 'tab\tsep\x0bvt', ' ', 'café   sep',
+                 # every line boundary str.splitlines knows must stay inside '#' comments; template characters are data
+                 'first\rsecond', 'cr\r\nlf\rx\x0cff\x1cfs\x85nel\u2028ls\u2029ps', 'see {docs} and {0} %s {{x}} {']
 
 
 def rand_str(r, maxlen=40):
